@@ -136,7 +136,7 @@ class Universe(object):
 DEFAULT_WEIGHTS = {
     "AddPage": 22, "AddPages": 8, "AddLinks": 14, "IndexBatchCrawl": 10, "CreateWe": 8,
     "DeleteWe": 4, "AddPrefix": 5, "RemovePrefix": 4, "MovePrefix": 3, "AddRule": 5,
-    "RemoveRule": 2, "Reopen": 3, "Clear": 1, "Paginate": 0, "PagLinks": 0,
+    "RemoveRule": 2, "Reopen": 3, "Clear": 1, "Paginate": 0, "PagLinks": 0, "Recreate": 0,
 }
 
 
@@ -215,6 +215,8 @@ class Driver(object):
                     continue
             elif pages and not self.family_ok(pages):
                 continue
+            if rng.random() < self.profile.get("text", 0.15):
+                op["text"] = True
             self.note(op)
             return op
         return {"op": "AddPage", "l": u.lrus[0], "cr": False}
@@ -229,7 +231,7 @@ class Driver(object):
             else:
                 self.sess = dict(op)
                 self.sess["token"] = ret["token"]
-        elif op["op"] == "Clear":
+        elif op["op"] in ("Clear", "Recreate"):
             self.sess = None
 
     def note(self, op):
@@ -238,7 +240,7 @@ class Driver(object):
             self.ram[op["anchor"]] = op["rule"]
         elif n == "RemoveRule":
             self.ram.pop(op["anchor"], None)
-        elif n in ("Reopen", "Clear"):
+        elif n in ("Reopen", "Clear", "Recreate"):
             self.ram = dict(op["rules"])
             self.default = op["def"]
 
@@ -383,6 +385,11 @@ class Driver(object):
             if rules and rng.random() < self.profile.get("reopen_drop", 0.0):
                 rules.pop(rng.randrange(len(rules)))     # a rule the caller forgot to re-supply
             return {"op": name, "def": self.default, "rules": rules}
+        if name == "Recreate":
+            rules = []
+            if rng.random() < 0.5:
+                rules = [(u.host_prefix(), rng.choice(RULES))]
+            return {"op": name, "def": rng.choice([self.default, {"k": "domain"}]), "rules": rules}
         if name == "Clear":
             rules = []
             if rng.random() < 0.5:
